@@ -47,6 +47,14 @@
 // transport's 15 s keep-alives carry across the idle timeout. C07_TRANSPORT=tcp|quic|webtransport forces the
 // stratum (sensitivity runs only).
 //
+// Returning-peer scenario (1/4 of the runs, after the rounds, every stratum): a THIRD real node H connects to
+// the listener, opens protocol X (a freshly set exact handler) and keeps the stream; the dialer opens X, ends
+// the stream and closes all its connections [control, 1/4: H's stream ends now too]; 130|190|250 virtual
+// seconds pass (two to four runs of the resource manager's once-a-minute gc, which collects the absent
+// dialer's peer scope while X's protocol scope survives thanks to H); the dialer opens X again (NewStream
+// re-dials; usage drawn). Usual oracles (handler, agreement, first-use-failed-although-supported, ...) and
+// the protocol scopes of all three real managers read at quiescence while open and after the end.
+//
 // Strata (drawn next): fault-free with real resource managers (3/5); one injected resource-manager refusal
 // of SetProtocol on either node (1/5; an open may then fail, liveness oracles and "handler ran for a failed
 // open" are off, every safety oracle stays on); fault-free with network.NullResourceManager on both nodes
@@ -121,6 +129,10 @@
 //	s3 via quic -> C07/stream-broke-after-negotiation/listener (handler's later Write: "deadline exceeded")
 //	q1 QUIC-specific: p2p/transport/quic/stream.go CloseWrite mapped to CancelWrite (a reset instead of a FIN)
 //	      -> C07/first-use-failed-although-supported/{lazy,eager} (read-only client / CloseWrite usages), 81 runs
+//
+//	s4  rcmgr gc() keeps the closed per-peer sub-scope of a dead peer in a surviving protocol scope (third-round seed C07c-1)
+//	      -> C07/first-use-failed-although-supported/{lazy,eager}, C07/open-failed-with-common-protocol (returning-peer scenario:
+//	         listener resets with 0x1002 the stream both ends agreed on); run 0; missed before the scenario existed
 //
 // Not caught by design: identify never pushing protocol changes (the statement allows stale knowledge to fail at first use).
 //
@@ -260,9 +272,16 @@ type plan struct {
 	udpLossRounds  int  // datagram loss is active during rounds [0, udpLossRounds)
 	longIdle       bool // QUIC strata: the idle usage idles 40 s (beyond QUIC's 30 s idle timeout; 15 s keep-alives must hold the connection)
 	randSeed       uint64
-	faultRound     int
-	faultOnB       bool
-	faultN         int
+	// returning-peer scenario after the rounds (third node H holds a stream of protocol X on the listener while
+	// the dialer is away for several resource-manager gc periods, then the dialer reconnects and opens X)
+	gc         bool
+	gcSpec     int           // exact handler spec that defines X
+	gcAway     time.Duration // 130|190|250 s: two to four runs of the once-a-minute gc
+	gcControl  bool          // control: H's stream ends before the dialer goes away (X's scope is collected entirely)
+	gcUse      int           // usage of the dialer's open after it returned
+	faultRound int
+	faultOnB   bool
+	faultN     int
 }
 
 func drawMut(g simrt.Gen) mutPlan {
@@ -423,6 +442,13 @@ func drawPlan(g simrt.Gen) plan {
 		p.faultOnB = g.Bool()
 		p.faultN = 1 + g.Int(4)
 	}
+	if g.Chance(1, 4) {
+		p.gc = true
+		p.gcSpec = []int{0, 1, 2, 3, 7}[g.Int(5)]
+		p.gcAway = []time.Duration{130 * time.Second, 190 * time.Second, 250 * time.Second}[g.Int(3)]
+		p.gcControl = g.Chance(1, 4)
+		p.gcUse = []int{useNormal, useCloseWrite, useReadOnly, useDuplex}[g.Weighted(4, 1, 1, 1)]
+	}
 	if p.transport != trTCP {
 		// light faults on the UDP wire: loss only during the rounds < udpLossRounds (never during connect,
 		// never during the teardown audit), duplication and reordering throughout
@@ -459,6 +485,7 @@ type mutation struct {
 
 type openRec struct {
 	idx, round int
+	from       int // 0 = the dialer A, 1 = the holder H (returning-peer scenario)
 	plan       openPlan
 	known      []protocol.ID // dialer's peerstore ∩ request list just before the call (strata/probes only)
 	inv, ret   uint64
@@ -507,6 +534,9 @@ type world struct {
 	rmB    network.ResourceManager
 	rwA    *simhost.RefusingRcmgr
 	rwB    *simhost.RefusingRcmgr
+	h      *simhost.Node // holder (returning-peer scenario only)
+	hH     host.Host
+	rmH    network.ResourceManager
 
 	nextInst int
 	insts    []*inst
@@ -662,11 +692,15 @@ func (w *world) open(op *openRec, rel <-chan struct{}, reached func()) {
 	for i := 0; i < op.plan.yields; i++ {
 		simrt.Yield("c07.open.start")
 	}
-	op.known, _ = w.a.PS.SupportsProtocols(w.b.ID, op.plan.req...)
+	from, fromHost := w.a, w.hA
+	if op.from == 1 {
+		from, fromHost = w.h, w.hH
+	}
+	op.known, _ = from.PS.SupportsProtocols(w.b.ID, op.plan.req...)
 	ctx, cancel := context.WithTimeout(context.Background(), 20*time.Second)
 	defer cancel()
 	op.inv = simrt.Stamp()
-	s, err := w.hA.NewStream(ctx, w.b.ID, op.plan.req...)
+	s, err := fromHost.NewStream(ctx, w.b.ID, op.plan.req...)
 	op.ret = simrt.Stamp()
 	if err != nil {
 		op.openErr = short(err)
@@ -771,6 +805,91 @@ func (w *world) negTimeoutB() time.Duration {
 	return 10 * time.Second // simhost's default HostOpts.NegotiationTimeout
 }
 
+// returningPeer: the statement's "charged to the negotiated protocol's resource scope" and "a supported
+// protocol opens" must also hold for a peer that was away while the listener's resource manager collected
+// its scopes (once a minute) and the protocol's scope survived because another peer kept a stream of it.
+//
+//	step R   : H connects to the listener and opens X (round trip), its stream stays open
+//	step R+1 : the dialer opens X (round trip), audit, ends the stream, closes all its connections
+//	           [control: H's stream ends now]; 130|190|250 virtual seconds pass
+//	step R+2 : the dialer opens X again (NewStream re-dials): usual oracles; audit of all three managers
+//	           while the streams are open and after everything ended
+func (w *world) returningPeer(infoB peer.AddrInfo) bool {
+	o, p := w.o, w.p
+	R := len(p.rounds)
+	w.round = R
+	o.Logf("returning-peer scenario (away %v, control=%v):", p.gcAway, p.gcControl)
+	w.apply(mutPlan{spec: p.gcSpec, name: hspecs[p.gcSpec].name})
+	X := hspecs[p.gcSpec].name
+	settle(2 * time.Second)
+	{
+		ctx, cancel := context.WithTimeout(context.Background(), 30*time.Second)
+		err := w.hH.Connect(ctx, infoB)
+		cancel()
+		if err != nil {
+			o.Trouble = "holder connect failed: " + err.Error()
+			return false
+		}
+	}
+	settle(2 * time.Second)
+	step := func(r int, from int, use int) (*openRec, chan struct{}, *simsync.WaitGroup) {
+		w.round = r
+		rel := make(chan struct{})
+		w.release = rel
+		op := &openRec{idx: len(w.opens), round: r, from: from, plan: openPlan{req: []protocol.ID{X}, use: use}, faultArmed: w.firedAt >= 0}
+		op.nonce = fmt.Sprintf("N%03d-%07d", op.idx, (op.idx*7919+13)%10000000)
+		w.opens = append(w.opens, op)
+		var wg, reached simsync.WaitGroup
+		wg.Add(1)
+		reached.Add(1)
+		simrt.GoNamed(fmt.Sprintf("open%d.%d", r, from), func() {
+			defer wg.Done()
+			w.open(op, rel, reached.Done)
+		})
+		reached.Wait()
+		simrt.WaitIdle()
+		return op, rel, &wg
+	}
+	opH, relH, wgH := step(R, 1, useNormal)
+	if opH.held {
+		o.Probe("holder-keeps-protocol-scope-alive")
+	}
+	_, rel1, wg1 := step(R+1, 0, useNormal)
+	w.auditHeld(R + 1)
+	close(rel1)
+	wg1.Wait()
+	settle(2 * time.Second)
+	w.a.Swarm.ClosePeer(w.b.ID)
+	settle(2 * time.Second)
+	if p.gcControl {
+		close(relH)
+		wgH.Wait()
+		settle(2 * time.Second)
+	}
+	o.Logf("  dialer closed every connection; %v pass", p.gcAway)
+	simrt.TimeSleep(p.gcAway)
+	simrt.WaitIdle()
+	if n := len(w.b.Swarm.ConnsToPeer(w.a.ID)); n != 0 {
+		o.Logf("  listener still lists %d connections to the dialer", n)
+	} else {
+		o.Probe("dialer-away-for-gc-periods")
+	}
+	op2, rel2, wg2 := step(R+2, 0, p.gcUse)
+	if op2.held {
+		o.Probe("returning-peer-open-ok")
+	}
+	w.auditHeld(R + 2)
+	close(rel2)
+	wg2.Wait()
+	if !p.gcControl {
+		close(relH)
+		wgH.Wait()
+	}
+	settle(2 * time.Second)
+	w.auditClosed(R + 2)
+	return true
+}
+
 func settle(d time.Duration) {
 	simrt.WaitIdle()
 	simrt.TimeSleep(d)
@@ -787,10 +906,13 @@ func (w *world) auditHeld(r int) {
 	if w.p.nullRcmgr {
 		return
 	}
-	expA, expB := map[protocol.ID]int{}, map[protocol.ID]int{}
+	expA, expB, expH := map[protocol.ID]int{}, map[protocol.ID]int{}, map[protocol.ID]int{}
 	for _, op := range w.opens {
-		if op.held {
+		if op.held && op.from == 0 {
 			expA[op.proto]++
+		}
+		if op.held && op.from == 1 {
+			expH[op.proto]++
 		}
 	}
 	for _, iv := range w.invs {
@@ -806,6 +928,11 @@ func (w *world) auditHeld(r int) {
 		if got := stA[id]; got.NumStreamsOutbound != expA[id] || got.NumStreamsInbound != 0 {
 			w.o.Violate("C07/scope-while-open/dialer", "round %d: dialer holds %d open streams bound to %s but its manager's scope for %s reads %+v", r, expA[id], id, id, got)
 		}
+		if w.rmH != nil {
+			if got := protoStats(w.rmH)[id]; got.NumStreamsOutbound != expH[id] || got.NumStreamsInbound != 0 {
+				w.o.Violate("C07/scope-while-open/dialer", "round %d: the holder node holds %d open streams bound to %s but its manager's scope for %s reads %+v", r, expH[id], id, id, got)
+			}
+		}
 		if got := stB[id]; got.NumStreamsInbound != expB[id] || got.NumStreamsOutbound != 0 {
 			w.o.Violate("C07/scope-while-open/listener", "round %d: %d running handlers have a stream reporting %s but the listener's manager's scope for %s reads %+v", r, expB[id], id, id, got)
 		}
@@ -820,6 +947,11 @@ func (w *world) auditClosed(r int) {
 	for _, id := range reqUniverse {
 		if got := stA[id]; got != (network.ScopeStat{}) {
 			w.o.Violate("C07/scope-after-close/dialer", "round %d: every stream ended, dialer's scope for %s still reads %+v", r, id, got)
+		}
+		if w.rmH != nil {
+			if got := protoStats(w.rmH)[id]; got != (network.ScopeStat{}) {
+				w.o.Violate("C07/scope-after-close/dialer", "round %d: every stream ended, the holder node's scope for %s still reads %+v", r, id, got)
+			}
 		}
 		if got := stB[id]; got != (network.ScopeStat{}) {
 			w.o.Violate("C07/scope-after-close/listener", "round %d: every stream ended, listener's scope for %s still reads %+v", r, id, got)
@@ -916,12 +1048,33 @@ func run(t *testing.T, tape *simrt.Tape) *common.Outcome {
 			w.rmA.Close()
 			return
 		}
+		if p.gc {
+			var rwH *simhost.RefusingRcmgr
+			w.h, w.hH, w.rmH, rwH = mk(3, "10.0.0.3", false)
+			_ = rwH
+			if w.h == nil {
+				w.a.Close()
+				w.b.Close()
+				w.rmA.Close()
+				w.rmB.Close()
+				return
+			}
+			if p.nullRcmgr {
+				w.rmH = nil
+			}
+		}
 		defer func() {
 			w.a.Close()
 			w.b.Close()
+			if w.h != nil {
+				w.h.Close()
+			}
 			simrt.WaitIdle()
 			w.rmA.Close()
 			w.rmB.Close()
+			if w.rmH != nil {
+				w.rmH.Close()
+			}
 		}()
 		target := func(nd *simhost.Node) ma.Multiaddr {
 			switch p.transport {
@@ -1065,6 +1218,11 @@ func run(t *testing.T, tape *simrt.Tape) *common.Outcome {
 				settle(2 * time.Second)
 			}
 			w.auditClosed(r)
+		}
+		if p.gc {
+			if !w.returningPeer(infoB) {
+				return
+			}
 		}
 		finished = true
 	})
